@@ -465,33 +465,7 @@ func c15Accumulator(p *Program, r *Report) {
 				r.Fail("accumulator", key, fn.Pos(), "the reassembly target length is not FrameHeaderLengthV3AndHigher + header.BodyLength")
 			}
 		case "readSelfContainedSegment":
-			// a loop whose condition is payloadReader.Len() > 0
-			key := fnKey(fn) + " drain"
-			ok := false
-			for _, b := range fn.Blocks {
-				if len(b.Instrs) == 0 {
-					continue
-				}
-				if ifi, isIf := b.Instrs[len(b.Instrs)-1].(*ssa.If); isIf {
-					if bo, isBo := ifi.Cond.(*ssa.BinOp); isBo && bo.Op == token.GTR {
-						if c, isC := bo.X.(*ssa.Call); isC {
-							if f := c.Call.StaticCallee(); f != nil && f.String() == "(*bytes.Reader).Len" {
-								// loop: the true successor eventually jumps back to b
-								for _, pr := range b.Preds {
-									if b.Dominates(pr) {
-										ok = true
-									}
-								}
-							}
-						}
-					}
-				}
-			}
-			if ok {
-				r.OKf("accumulator", key, fn.Pos(), "envelopes are read from a self-contained segment until its payload is exhausted")
-			} else {
-				r.Fail("accumulator", key, fn.Pos(), "a self-contained segment is not drained in a loop until payloadReader.Len() == 0: only its first envelope(s) are delivered")
-			}
+			segmentDrain(r, "accumulator", fn)
 		}
 	}
 	_ = pk
@@ -565,4 +539,57 @@ func nilTestOf(cond ssa.Value, f *types.Var, base ssa.Value, onTrue bool, depth 
 		}
 	}
 	return false
+}
+
+// segmentDrain: envelopes are read from a self-contained segment in a loop that runs while the
+// payload reader is not empty (Len() > 0, Len() != 0 or Len() >= 1) - not once, and not while more
+// than some number of bytes remain (an envelope with an empty body is only a header long).
+func segmentDrain(r *Report, rule string, fn *ssa.Function) {
+	key := fnKey(fn) + " drain"
+	ok := false
+	why := "a self-contained segment is not drained in a loop until payloadReader.Len() == 0: only its first envelope(s) are delivered"
+	for _, b := range fn.Blocks {
+		if len(b.Instrs) == 0 {
+			continue
+		}
+		ifi, isIf := b.Instrs[len(b.Instrs)-1].(*ssa.If)
+		if !isIf {
+			continue
+		}
+		bo, isBo := ifi.Cond.(*ssa.BinOp)
+		if !isBo {
+			continue
+		}
+		c, isC := bo.X.(*ssa.Call)
+		if !isC {
+			continue
+		}
+		if f := c.Call.StaticCallee(); f == nil || f.String() != "(*bytes.Reader).Len" {
+			continue
+		}
+		k, isK := bo.Y.(*ssa.Const)
+		if !isK || k.Value == nil {
+			continue
+		}
+		isLoop := false
+		for _, pr := range b.Preds {
+			if b.Dominates(pr) {
+				isLoop = true
+			}
+		}
+		if !isLoop {
+			continue
+		}
+		kv := k.Value.ExactString()
+		if (bo.Op == token.GTR || bo.Op == token.NEQ) && kv == "0" || bo.Op == token.GEQ && kv == "1" {
+			ok = true
+		} else {
+			why = fmt.Sprintf("the drain loop runs while payloadReader.Len() %s %s: envelopes that fit in the remaining bytes (an empty-body envelope is only a header long) are silently dropped", bo.Op, kv)
+		}
+	}
+	if ok {
+		r.OKf(rule, key, fn.Pos(), "envelopes are read from a self-contained segment until its payload is exhausted")
+	} else {
+		r.Fail(rule, key, fn.Pos(), "%s", why)
+	}
 }
